@@ -77,8 +77,16 @@ impl<T: Float + core::fmt::Display> core::fmt::Display for KahanSum<T> {
 
 impl<T: Float> core::ops::AddAssign<Self> for KahanSum<T> {
     fn add_assign(&mut self, rhs: Self) {
-        kahan_add(&mut self.sum, rhs.sum, &mut self.compensation);
-        kahan_add(&mut self.sum, rhs.compensation, &mut self.compensation);
+        // error-free transformation (TwoSum): `self.sum + rhs.sum == total + error` exactly, so
+        // that merging loses nothing to first order whatever the magnitudes of the two sums.
+        let total = self.sum + rhs.sum;
+        let rhs_part = total - self.sum;
+        let error = (self.sum - (total - rhs_part)) + (rhs.sum - rhs_part);
+        // a compensation term is the excess already included in its sum
+        let excess = (self.compensation + rhs.compensation) - error;
+        // fold the excess back so that the compensation stays below one ulp of the sum
+        self.sum = total - excess;
+        self.compensation = (self.sum - total) + excess;
     }
 }
 
